@@ -169,7 +169,7 @@ def run(rep, tier, seed):
     jobs, plan = [], []
     for sh in shapes:
         n = sh[0] * sh[1]
-        kmax = (1 if n > 6 else 2) if tier == 'quick' else (3 if n <= 6 else 2 if n <= 12 else 1)
+        kmax = (1 if n > 6 else 2) if tier == 'quick' else (3 if n <= 4 else 2 if n <= 9 else 1)
         plan.append({'shape': list(sh), 'max_opaque_cells': kmax})
         cnt = sum(1 for _ in O.opaque_subsets(sh, kmax)) * n * 4
         parts = max(1, min(64, cnt // 40))
